@@ -368,6 +368,18 @@ def run_single(mods, cell, case):
     return None
 
 
+def recover_crash(seed, i, cfg, mods):
+    """A worker died in run i: find the case (same generator stream) whose compiled loop crashes, each tried in its own fork."""
+    rng = core.rng_for(PROP, seed, i)
+    for j in range(cfg["cases_per_run"]):
+        ms = mods[(i + j) % len(mods)]
+        case = gen_case(rng)
+        st, r = core.run_one_forked(run_single, mods, ms["cell"], case, timeout=30)
+        if st == "crash":
+            return {"klass": "crash", "detail": {"signal": r}, "case": case, "cell": ms["cell"], "loop_name": case_name(case)}
+    return None
+
+
 def replay(payload):
     core.stage()
     mods = build_mods()
@@ -406,7 +418,12 @@ def check(tier):
         results = core.run_forked(one_run, PROP, seed, range(start, min(n, start + batch)), cfg, deadline=deadline)
         for i, r in results:
             if "crash" in r:
-                rep.harness_errors.append("run %d crashed a worker (signal %s)" % (i, r["crash"]))
+                # the compiled loop itself died (e.g. read past the end of a container that shrank): a violation, once located
+                v = recover_crash(seed, i, cfg, mods) if not any(x[1]["klass"] == "crash" for x in viol) else None
+                if v is not None:
+                    viol.append((i, v))
+                elif not any(x[1]["klass"] == "crash" for x in viol):
+                    rep.harness_errors.append("run %d crashed a worker (signal %s) but no single case reproduces it" % (i, r["crash"]))
                 continue
             if "harness_error" in r:
                 rep.harness_errors.append(r["harness_error"])
